@@ -31,6 +31,11 @@ def gen_scenarios(rng, quick):
     with open(os.path.join(core.VERIF, "corpus", "C19", "shutdown_corpus.json")) as f:
         for c in json.load(f)["scenarios"]:
             add(c["name"], tuple(c["cfg"]), list(c["lines"]), dict(c["env"]))
+    # the proviso of the theorems (shutdown_concurrent_disable_hangs): a qthread_disable_worker landing right after the finalizer's
+    # test of that worker's flag; the machine predicts a hang, the real finalize must hang too (short watchdog; last line of its process)
+    add("proviso-concurrent-disable-2x2", (2, 2), ["C sp", "C sp cd3 al4"])
+    if not quick:
+        add("proviso-concurrent-disable-1x3", (1, 3), ["C sp cd2 al4"])
     configs = [(2, 2), (3, 2), (2, 3), (4, 1)] if quick else [(1, 2), (1, 4), (2, 1), (2, 2), (2, 3), (3, 2), (3, 3), (4, 1), (4, 2), (5, 2), (8, 1)]
     for rep in range(1 if quick else 4):
         for (ns, nw) in configs:
@@ -167,6 +172,7 @@ def run_shutdown(ctx, quick):
             stats["reenabling_cas"] += ev.count("FC,")
             stats["task_events"] += len(re.findall(r"WG,\d+,0", ev))
             wact = I.get("wact", "") or "-"
+            qlen = I.get("qlen", "") or ","          # advisory queue lengths at the entry (racy: workers may still be dequeuing)
             if "0" in wact:
                 stats["with_inactive_worker"] += 1
             if "0" in I["sact"]:
@@ -174,11 +180,21 @@ def run_shutdown(ctx, quick):
             if c.get("E", {}).get("overflow", "0") != "0":
                 ctx.notes.append("note (shutdown): event buffer overflow in %s cycle %d (not judged)" % (sc["name"], k + 1))
                 continue
-            acc = core.run_lines(drv, ["ACC 0 %d %d %s %s %s" % (S, W, I["sact"], wact, ev)], timeout=120)[1]
+            acc = core.run_lines(drv, ["ACC 0 %d %d %s %s %s %s" % (S, W, I["sact"], wact, qlen, ev)], timeout=120)[1]
             res = acc[0] if acc else "ACC error why=no answer"
             r = _kv(res.split(" why=")[0])
             why = res.split(" why=", 1)[1] if " why=" in res else "?"
             complete = "T" not in c and "Z" in c
+            if " cd" in line:          # expected: the machine ends stuck at the join of the disabled worker, the runtime hangs
+                if res.startswith("ACC ok") and r.get("stuck", "-") != "-" and "T" in c:
+                    stats["concurrent_disable_hang_reproduced"] = stats.get("concurrent_disable_hang_reproduced", 0) + 1
+                    stats["events"] -= 0
+                else:
+                    rejects.append(("the machine predicts a hang when a qthread_disable_worker lands after the finalizer's test of that worker's flag "
+                                    "(shutdown_concurrent_disable_hangs): %s; the real qthread_finalize %s" % (res[:200], "hung" if "T" in c else "returned"),
+                                    dict(case, ops=line, acceptor=res)))
+                tmo = None
+                break
             orc = oracle(c, S, W)
             if res.startswith("ACC ok") and complete and r.get("done") == "1":
                 stats["accepted"] += 1
@@ -189,7 +205,7 @@ def run_shutdown(ctx, quick):
             else:
                 # model-level explanation: where the machine stands; does the variant that reads the shepherd's flag explain the log?
                 expl = why if not res.startswith("ACC ok") else "the log ends with the finalizer of the model at %s" % r.get("fin")
-                var = core.run_lines(drv, ["ACC 1 %d %d %s %s %s" % (S, W, I["sact"], wact, ev)], timeout=120)[1]
+                var = core.run_lines(drv, ["ACC 1 %d %d %s %s %s %s" % (S, W, I["sact"], wact, qlen, ev)], timeout=120)[1]
                 rv = _kv(var[0].split(" why=")[0]) if var else {}
                 stuck = None
                 if var and var[0].startswith("ACC ok") and rv.get("stuck", "-") != "-":
@@ -214,6 +230,10 @@ def run_shutdown(ctx, quick):
     ctx.cov["evaluations"] = ctx.cov.get("evaluations", 0) + stats["accepted"]
     ctx.cov["traces_validated_against_impl"] = ctx.cov.get("traces_validated_against_impl", 0) + stats["accepted"]
     ctx.cov["distinct_nontrivial"] = ctx.cov.get("distinct_nontrivial", 0) + stats["with_inactive_worker"]
+    if stats.get("concurrent_disable_hang_reproduced"):
+        ctx.notes.append("note (shutdown, not counted: outside C19's proviso 'every task spawned and awaited'; docs/proposed_fixes/C19-concurrent-disable.diff): "
+                         "a qthread_disable_worker that lands after the finalizer's test of that worker's flag makes qthread_finalize hang, on the machine "
+                         "(shutdown_concurrent_disable_hangs) and on the real runtime (%d reproductions)" % stats["concurrent_disable_hang_reproduced"])
     ctx.assumptions += ["shutdown machine: no qthread_disable_worker / disable_shepherd call runs concurrently with qthread_finalize (flags are arbitrary at its entry, "
                         "then only the finalizer writes them); ordinary tasks still queued at finalize do not spawn and carry no target shepherd",
                         "shutdown machine: a shepherd's queue is an abstract bag (the real one is taken from the tail); stealing moves ordinary tasks only"]
